@@ -58,14 +58,14 @@ def read_regs(emu: Emulator) -> Dict[str, int]:
 
 
 def run(regs: Dict[str, int], mem: Dict[int, int], fill: int = 0, steps: int = 1, log_reads: bool = False,
-        temps: Optional[Dict[int, int]] = None, trace: bool = False, emu_fm=None) -> Dict[str, Any]:
+        temps: Optional[Dict[int, int]] = None, trace: bool = False, emu_fm=None, ignore_power: bool = False) -> Dict[str, Any]:
     """Execute `steps` instructions starting at regs['PC']; same result shape as the Rust `exec` command."""
     emu, fm = emu_fm if emu_fm is not None else make(regs, mem, fill, temps)
     lens: List[int] = []
     err = None
     tr = []
     for _ in range(steps):
-        if emu.state.halted:
+        if emu.state.halted and not ignore_power:
             break
         pc = emu.regs.get(RegisterName.PC)
         fm.log = log_reads
